@@ -40,7 +40,8 @@ func ParseDateTime(value string) (DateTime, error) {
 	value = strings.TrimPrefix(value, "@")
 	for _, l := range dateTimeLayouts {
 		if t, err = time.Parse(l, value); err == nil {
-			return DateTime{t, layout(l)}, nil
+			t, fl := normalizeFraction(t, layout(l))
+			return DateTime{t, fl}, nil
 		}
 	}
 	return DateTime{}, fmt.Errorf("unable to parse DateTime '%s': %w", value, err)
